@@ -108,6 +108,18 @@ func realMain() int {
 		if r.Violations() > 0 {
 			return 1
 		}
+		if cp := v.Case.Args["child_process"]; strings.HasPrefix(cp, "GOMAXPROCS=") && v.Case.Args["child_range"] != "" {
+			// not reproduced from the single case: run the child process that saw it once more
+			n, err := mon.ReplayInChild(m.ID, seed, strings.TrimPrefix(cp, "GOMAXPROCS="), v.Case.Args["child_range"])
+			if n > 0 {
+				fmt.Printf("VIOLATION property=%s replay=(replayed) the child process with %s reports %d violations again\n", m.ID, cp, n)
+				return 1
+			}
+			if err != nil {
+				fmt.Println("INCONCLUSIVE child process:", err)
+				return 3
+			}
+		}
 		fmt.Println("replay: the case holds on the current tree")
 	default:
 		if h := mon.Internal(os.Args[1]); h != nil {
